@@ -143,7 +143,7 @@ def run(ck, P):
     # stop: path check
     stores = [ev for ev in P.writes_to_field("_mod", "state") if ev.fn is sp_fn]
     decs = [ev for ev in writers if ev.fn is sp_fn]
-    ck.need(stores and decs, "stop() lost its state store or its counter decrement")
+    ck.need(stores, "stop() lost its state store")
     run_atom = "m_mod_is(mod, %d)" % X.RUNNING
     bad = None
     npaths = 0
